@@ -368,7 +368,15 @@ def rule_legacy(ctx: Ctx, rep: Report) -> None:
     rep.ob(rule, "double_sha256", any(isinstance(r.value, ast.Call) and call_name(r.value) == "hash256" for r in rets), fi.where(), "returns hash256(preimage)")
     lc = ctx.func(f"{SH}._legacy_tx_copy")
     txt = PT.text(lc)
-    rep.ob(rule, "_legacy_tx_copy", "script_sig=b''" in txt and "new_tx.vin[vin_i].script_sig = script_code" in txt, lc.where(), "every script_sig blanked, the signed input's replaced by the script code")
+    loc = {a_.targets[0].id: a_.value for a_ in own_nodes(lc.node) if isinstance(a_, ast.Assign) and len(a_.targets) == 1 and isinstance(a_.targets[0], ast.Name)}
+    sets = False
+    for a_ in own_nodes(lc.node):
+        if isinstance(a_, ast.Assign) and isinstance(a_.targets[0], ast.Attribute) and a_.targets[0].attr == "script_sig" and norm(a_.value) == "script_code":
+            base = a_.targets[0].value
+            if isinstance(base, ast.Name) and base.id in loc:
+                base = loc[base.id]
+            sets = sets or norm(base).endswith(".vin[vin_i]")
+    rep.ob(rule, "_legacy_tx_copy", "script_sig=b''" in txt and sets, lc.where(), "every script_sig blanked, the signed input's replaced by the script code")
     wc = ctx.func(f"{SH}._without_op_codeseparators")
     rep.ob(rule, "_without_op_codeseparators", any(isinstance(n, ast.If) and norm(n.test) == "op_code != OP_CODESEPARATOR" for n in own_nodes(wc.node)) and ctx.const(SH, "OP_CODESEPARATOR") == 0xAB,
            wc.where(), "walks op codes (not bytes) and keeps everything but 0xab")
